@@ -2728,7 +2728,7 @@ class Processor:
                         recurse(item, parent, parentref, reference_node,
                                 replacement_node)
             elif isinstance(data, (CommentedSet, set)):
-                if (reference_node in data
+                if (any(ele is reference_node for ele in data)
                         and (data is parent
                              or hasattr(reference_node, "anchor"))):
                     data.discard(reference_node)
